@@ -12,7 +12,10 @@ good sibling), and sent to a capturing resolver over every input route:
   variable routes   $v: T -> f(x: $v) | $v: T = GOOD with a payload | @d(x: $v) | l(x: [$v]) | b(x: {v: $v})
   direct calls      coerce_value, value_from_ast, coerce_variable_values + coerce_argument_values
 
-plus nullable variables at non-null positions (allowed when a default exists), presence enumerations
+plus the same field selected at several places of one operation with different arguments (aliases,
+same response key under different parents, list items, merged duplicates, different depths: all
+ordered pairs -- thorough: triples -- of argument assignments), nullable variables at non-null
+positions (allowed when a default exists), presence enumerations
 (provided / omitted / explicit null / through a provided, null, omitted or defaulted variable) for every argument of a 3-argument field (7^3), for the fields of an input object
 literal (7^3), for every type with and without argument default, @skip/@include conditions, and
 defaults declared in SDL.  The oracle is mc/ref/coerce.py (spec transliteration) + conforms().
@@ -43,7 +46,7 @@ RULE = (
     "placements (leaf nested 0..k+1 lists deep, beside a null, beside a valid sibling) x the base's value alphabet "
     "(natural values, 32-bit boundaries, integral/non-integral floats, numeric strings, booleans, null, one value of every "
     "other JSON kind; for the input object: 3^k presence combinations, every field x its alphabet, unknown fields, wrong kinds), "
-    "plus literal-only leaves, nullable variables (null / unset / value) at every non-null-typed position that has a default, 7^3 argument-presence and 7^3 object-literal-presence combinations, per-type argument "
+    "plus literal-only leaves, ordered pairs (thorough: triples) of argument assignments (literal / variable / unset variable / null / default per argument) for one field selected at several places of one operation (5 placements), nullable variables (null / unset / value) at every non-null-typed position that has a default, 7^3 argument-presence and 7^3 object-literal-presence combinations, per-type argument "
     "presence with/without default, @skip/@include conditions, SDL-declared defaults; evaluation = one run of the "
     "implementation on one route compared with the reference; non-trivial = distinct (type, value, route-independent) "
     "case for which the reference accepts on some route (so the resolver must run and its kwargs are compared) or "
@@ -56,8 +59,8 @@ ASSUMPTIONS = [
     "where the specification leaves a choice (1.0 for Int, int kept for ID, single-item wrapping inside an explicit list) every admissible answer is accepted",
 ]
 BOUNDS = {
-    "quick": {"wrapper_depth": 2, "in_presence_fields": 3, "arg_presence": "7^3", "object_literal_presence": "7^3", "sdl_default_depth": 1},
-    "thorough": {"wrapper_depth": 3, "in_presence_fields": 5, "arg_presence": "7^3", "object_literal_presence": "7^3", "sdl_default_depth": 2},
+    "quick": {"multi_occurrence": "13^2 ordered pairs x 5 placements", "wrapper_depth": 2, "in_presence_fields": 3, "arg_presence": "7^3", "object_literal_presence": "7^3", "sdl_default_depth": 1},
+    "thorough": {"multi_occurrence": "23^2 ordered pairs x 5 placements + 8^3 triples x 2 placements", "wrapper_depth": 3, "in_presence_fields": 5, "arg_presence": "7^3", "object_literal_presence": "7^3", "sdl_default_depth": 2},
 }
 TIME_CAP = {"quick": 300, "thorough": 1500}
 
@@ -65,6 +68,7 @@ ALL_SHAPES = V.shapes(3)
 TYPES = [(b, s) for s in ALL_SHAPES for b in V.BASES]
 TINDEX = {bs: i for i, bs in enumerate(TYPES)}
 
+SECONDARY_ROUTES = ("dir-literal", "dir-variable", "var-default-overridden")
 LIT_ROUTES = ("arg-literal", "var-default", "dir-literal", "list-literal", "obj-literal")
 VAR_ROUTES = ("arg-variable", "var-default-overridden", "dir-variable", "list-variable", "obj-variable")
 
@@ -117,10 +121,17 @@ def cases(tier):
         for b in V.BASES:
             for ctx in V.contexts(s, tier, b):
                 over = ctx == ["nest", V.list_depth(s) + 1]
-                for fb, fk, leaf in V.leaves(b, tier):
+                for li, (fb, fk, leaf) in enumerate(V.leaves(b, tier)):
+                    if tier == "quick" and not _quick_keeps(b, s, ctx, over, li, fb, fk):
+                        continue
                     # one list level more than the type has: what stands at the base position is a list
                     focus = [b, "list"] if over else [fb, fk]
-                    yield {"k": "val", "base": b, "shape": s, "ctx": ctx, "leaf": leaf, "focus": focus}
+                    c = {"k": "val", "base": b, "shape": s, "ctx": ctx, "leaf": leaf, "focus": focus}
+                    if tier == "quick" and not (ctx[0] == "nest" and ctx[1] in (0, V.list_depth(s))):
+                        # away from the bare and the natural placement the three secondary routes
+                        # (directive argument x2, overridden variable default) are left to thorough
+                        c["routes"] = "core"
+                    yield c
             for fk, tree in V.LITERAL_ONLY[b]:
                 for j in range(0, V.list_depth(s) + 1):
                     yield {"k": "lit", "base": b, "shape": s, "nest": j, "tree": tree, "focus": [b, fk]}
@@ -135,6 +146,17 @@ def cases(tier):
         for v in V.ALPHABET["Boolean"]:
             for how in ("variable", "literal"):
                 yield {"k": "cond", "dir": d, "value": v, "how": how}
+    assigns = MULTI_QUICK if tier == "quick" else list(range(len(MULTI_ASSIGN)))
+    for shape in MULTI_SHAPES:
+        for a1 in assigns:
+            for a2 in assigns:
+                yield {"k": "multi", "shape": shape, "assign": [a1, a2]}
+    if tier == "thorough":
+        for shape in ("aliases", "parents-same-key"):
+            for a1 in MULTI_TRIPLE:
+                for a2 in MULTI_TRIPLE:
+                    for a3 in MULTI_TRIPLE:
+                        yield {"k": "multi", "shape": shape, "assign": [a1, a2, a3]}
     sd = BOUNDS[tier]["sdl_default_depth"]
     for s in V.shapes(sd):
         for b in V.BASES:
@@ -143,6 +165,26 @@ def cases(tier):
             for fb, fk, leaf in V.leaves(b, "quick"):
                 for where in ("argument", "input-field"):
                     yield {"k": "sdl", "base": b, "shape": s, "leaf": leaf, "where": where, "focus": [fb, fk]}
+
+
+def _quick_keeps(b, s, ctx, over, li, fb, fk):
+    """
+    quick tier: every class of case stays (every shape x placement x leaf kind x route), but two
+    products are thinned: (1) one list level too many -- whatever the leaf is, a *list* stands at the
+    base position, so a handful of leaves per base is kept; (2) for the input object, the leaves that
+    vary one *field* over that field's scalar alphabet (already covered under the scalar bases) are
+    kept bare and at the natural nesting only, not beside siblings / at intermediate nestings.
+    """
+    k = V.list_depth(s)
+    if over:
+        if b == "In":
+            return li == 0 or (fb == "In" and fk != "presence")
+        return li < 2 or fk in ("null", "object", "bool")
+    if b == "In" and (fb != "In" or fk in ("int32-edge",)):
+        return ctx[0] == "nest" and ctx[1] in (0, k)
+    if ctx[0] != "nest":
+        return ctx[1] == k  # beside a null / a good sibling: innermost list only
+    return True
 
 
 def _product(xs, n):
@@ -162,6 +204,11 @@ CAPTURE = []
 
 def _resolver(root, ctx, info, **kwargs):
     CAPTURE.append(("args", info.field_definition.name, kwargs))
+    return True
+
+
+def _path_resolver(root, ctx, info, **kwargs):
+    CAPTURE.append(("at", ".".join(str(p) for p in info.path), kwargs))
     return True
 
 
@@ -254,6 +301,23 @@ def _build():
     field("m", [arg("p", "Int", "py_p"), arg("q", "Int", default=7), arg("r", ["nn", "Int"], "py_r")])
     field("cond", [])
     fields.append(Field("g", Boolean, [], resolver=_dir_resolver))
+    # the same field at several places of one operation (multi-occurrence family)
+    size_args = [
+        arg("u", "E"),
+        arg("s", "Int", "py_s", default=1),
+        arg("n", ["nn", "Int"], default=3),
+        arg("i", "In", "py_i"),
+    ]
+    argdefs["size"] = [d for d, _ in size_args]
+    box = ObjectType(
+        "Box",
+        lambda: [
+            Field("size", Boolean, [a for _, a in size_args], resolver=_path_resolver),
+            Field("inner", box, resolver=lambda *a, **k: {}),
+        ],
+    )
+    fields.append(Field("box", box, [Argument("id", Int)], resolver=lambda *a, **k: {}))
+    fields.append(Field("boxes", ListType(box), resolver=lambda *a, **k: [{}, {}]))
     schema = Schema(ObjectType("Query", fields), directives=directives)
     schema.validate()
     return schema, argdefs
@@ -516,6 +580,8 @@ def eval_val(case, st=None):
             note("value_from_ast", "literal", adm, impl, t, kwargs_mode=False)
     # -- requests
     reqs = _requests(b, s, tree if renderable else None, lit, value, has_json)
+    if case.get("routes") == "core":
+        reqs = [r for r in reqs if r[0] not in SECONDARY_ROUTES]
     for route, group, text, payload, vardefs, target, given in reqs:
         ad = argdefs[target]
         adm = _expect(vardefs, payload, ad, given, m)
@@ -542,7 +608,7 @@ def eval_val(case, st=None):
     # -- (c) literal route and variable route agree (only reported when neither broke (a)/(b))
     if has_json and renderable:
         for lr, vr in zip(LIT_ROUTES, VAR_ROUTES):
-            if lr == "var-default":
+            if lr == "var-default" or lr not in results or vr not in results:
                 continue
             la, li, lv = results[lr]
             va, vi, vv = results[vr]
@@ -892,6 +958,174 @@ def eval_cond(case, st=None):
 
 
 # ------------------------------------------------------------------------------------------
+# the same field at several places of one operation, each with its own arguments
+
+_I = lambda n: ["int", str(n)]  # noqa
+# per argument: state -> (literal tree | None, variable type | None, payload value | absent marker)
+MULTI_STATES = {
+    "u": {"omit": None, "A": ["enum", "A"], "B": ["enum", "B"], "null": ["null"], "var": ("E", "B"), "var-unset": ("E",)},
+    "s": {"omit": None, "2": _I(2), "max": _I(2 ** 31 - 1), "null": ["null"], "var": ("Int", 5), "var-unset": ("Int",), "var-null": ("Int", None)},
+    "n": {"omit": None, "4": _I(4), "var-null": ("Int", None), "var-unset": ("Int",)},
+    "i": {
+        "omit": None,
+        "x": ["obj", [["b", ["str", "x"]]]],
+        "y": ["obj", [["b", ["str", "y"]], ["a", _I(2)], ["e", ["enum", "B"]]]],
+        "var": ("In", {"b": "z"}),
+    },
+}
+MULTI_ARGS = ("u", "s", "n", "i")
+# assignments: nothing; each argument through each of its states alone; a few combinations
+MULTI_ASSIGN = [["omit", "omit", "omit", "omit"]]
+for _k, _a in enumerate(MULTI_ARGS):
+    for _st in MULTI_STATES[_a]:
+        if _st != "omit":
+            _x = ["omit"] * 4
+            _x[_k] = _st
+            MULTI_ASSIGN.append(_x)
+MULTI_ASSIGN += [
+    ["A", "2", "4", "x"],
+    ["var", "var", "omit", "var"],
+    ["null", "null", "omit", "omit"],
+    ["B", "var-unset", "var-unset", "y"],
+]
+# quick: nothing / literal / variable / unset variable / null / default per argument kind
+MULTI_QUICK = [0, 1, 3, 4, 6, 8, 9, 11, 13, 14, 17, 19, 20]
+MULTI_TRIPLE = [0, 1, 4, 6, 9, 14, 19, 20]
+MULTI_SHAPES = ("aliases", "parents-same-key", "list-items", "merged", "depths")
+
+
+def _multi_occurrence(assign, occ):
+    """-> (argument text, given trees, vardefs, payload) of one occurrence of `size`"""
+    parts, given, vardefs, payload = [], {}, [], {}
+    for a, stt in zip(MULTI_ARGS, assign):
+        v = MULTI_STATES[a][stt]
+        if v is None:
+            continue
+        if isinstance(v, tuple):
+            name = "%s%d" % (a, occ)
+            vardefs.append([name, v[0], None])
+            if len(v) > 1:
+                payload[name] = v[1]
+            tree = ["var", name]
+        else:
+            tree = v
+        given[a] = tree
+        parts.append("%s: %s" % (a, V.render_tree(tree)))
+    return ("(%s)" % ", ".join(parts)) if parts else "", given, vardefs, payload
+
+
+def _multi_document(shape, occs):
+    """occs: rendered argument texts.  -> (selection text, {path: occurrence index})"""
+    A = ["size" + o for o in occs]
+    n = len(occs)
+    if shape == "aliases":
+        names = ["p", "q", "r"][:n]
+        return "{ box(id: 1) { %s } }" % " ".join("%s: %s" % (nm, a) for nm, a in zip(names, A)), {"box.%s" % nm: k for k, nm in enumerate(names)}, ""
+    if shape == "parents-same-key":
+        names = ["first", "second", "third"][:n]
+        return (
+            "{ %s }" % " ".join("%s: box(id: %d) { %s }" % (nm, k + 1, a) for k, (nm, a) in enumerate(zip(names, A))),
+            {"%s.size" % nm: k for k, nm in enumerate(names)},
+            "",
+        )
+    if shape == "list-items":
+        return (
+            "{ boxes { %s } other: boxes { %s } }" % (A[0], A[1]),
+            {"boxes.0.size": 0, "boxes.1.size": 0, "other.0.size": 1, "other.1.size": 1},
+            "",
+        )
+    if shape == "merged":
+        return (
+            "{ box(id: 1) { %s } box(id: 1) { %s ...F } z: box(id: 2) { %s } }" % (A[0], A[0], A[1]),
+            {"box.size": 0, "z.size": 1},
+            " fragment F on Box { %s }" % A[0],
+        )
+    if shape == "depths":
+        return "{ box(id: 1) { %s inner { %s } } }" % (A[0], A[1]), {"box.size": 0, "box.inner.size": 1}, ""
+    raise ValueError(shape)
+
+
+def eval_multi(case, st=None):
+    from py_gql import graphql_blocking, process_graphql_query
+
+    m = _model()
+    schema, argdefs = _schema()
+    ad = argdefs["size"]
+    shape = case["shape"]
+    texts, givens, vardefs, payload = [], [], [], {}
+    for occ, ai in enumerate(case["assign"]):
+        t, g, vd, pl = _multi_occurrence(MULTI_ASSIGN[ai], occ + 1)
+        texts.append(t)
+        givens.append(g)
+        vardefs += vd
+        payload.update(pl)
+    sel, where, frags = _multi_document(shape, texts)
+    text = ("query%s " % _render_vardefs(vardefs) if vardefs else "") + sel + frags
+    expected = [_expect(vardefs, payload, ad, g, m) for g in givens]
+    out = []
+    per = {}
+    for cfg in ("blocking", "default"):
+        del CAPTURE[:]
+        try:
+            if cfg == "blocking":
+                res = graphql_blocking(schema, text, variables=payload)
+            else:
+                res = process_graphql_query(schema, text, variables=payload)
+            resp = res.response()
+        except Exception as e:  # noqa
+            per.setdefault("crash:" + type(e).__name__, []).append((cfg, "%s: %s" % (type(e).__name__, str(e)[:200])))
+            continue
+        caps = [c for c in CAPTURE if c[0] == "at"]
+        if st is not None:
+            st.n("evaluations")
+            st.n("route:multi-occurrence")
+            st.outcome(("multi", shape, len(caps), bool(resp.get("errors"))))
+        err_paths = [".".join(str(x) for x in e.get("path") or []) for e in resp.get("errors") or []]
+        probs = []
+        if "data" not in resp or resp.get("data") is None:
+            probs.append(("request-rejected", "the request is valid: %r" % (resp,)))
+        for path, k in where.items():
+            adm = expected[k]
+            got = [c[2] for c in caps if c[1] == path]
+            if len(got) > 1:
+                probs.append(("invoked-twice", "%s invoked %d times" % (path, len(got))))
+            if all(a is R.REJECT for a in adm):
+                if got:
+                    probs.append(("accepted-invalid", "%s received %r" % (path, got[0])))
+                elif path not in err_paths:
+                    probs.append(("no-error-reported", "%s neither invoked nor reported" % path))
+                continue
+            if not got:
+                if "data" in resp and resp.get("data") is not None:
+                    probs.append(("missing-invocation", "%s not invoked; errors %r" % (path, resp.get("errors"))))
+                continue
+            if any(a is not R.REJECT and R.same(a, got[0]) for a in adm):
+                continue
+            others = [j for j in range(len(expected)) if j != k and any(a is not R.REJECT and R.same(a, got[0]) for a in expected[j])]
+            exp = [a for a in adm if a is not R.REJECT][0]
+            if others:
+                probs.append(("kwargs-of-other-occurrence", "%s received %r = the arguments of occurrence %d; its own are %r" % (path, got[0], others[0] + 1, exp)))
+            else:
+                probs.append(("wrong-kwargs", "%s received %r expected %r" % (path, got[0], exp)))
+        for c in caps:
+            if c[1] not in where:
+                probs.append(("extra-invocation", "%s invoked" % c[1]))
+        for p_, d in probs:
+            per.setdefault(p_, []).append((cfg, d))
+    if st is not None:
+        st.nt(("multi", text, json.dumps(payload, sort_keys=True)))
+        st.mx("occurrences", len(case["assign"]))
+    for p_ in sorted(per):
+        cfgs = []
+        for c, _ in per[p_]:
+            if c not in cfgs:
+                cfgs.append(c)
+        suffix = "" if len(cfgs) == 2 else "@" + cfgs[0]
+        out.append(("multi-occurrence/%s/%s%s" % (shape, p_, suffix), "%s variables=%s: %s" % (text, json.dumps(payload), per[p_][0][1])))
+    return out
+
+
+# ------------------------------------------------------------------------------------------
 # defaults declared in SDL
 
 SDL_TYPES = """
@@ -1012,6 +1246,8 @@ def evaluate(case, st=None):
         return eval_cond(case, st)
     if k == "sdl":
         return eval_sdl(case, st)
+    if k == "multi":
+        return eval_multi(case, st)
     raise ValueError(k)
 
 
